@@ -41,6 +41,7 @@ from sqlfluff.core import (
     dialect_selector,
 )
 from sqlfluff.core.config import progress_bar_configuration
+from sqlfluff.core.errors import SQLFluffSkipFile
 from sqlfluff.core.linter import LintingResult, ParsedString
 from sqlfluff.core.linter.linted_file import TMP_PRS_ERROR_TYPES
 from sqlfluff.core.plugin.host import get_plugin_manager
@@ -1863,7 +1864,13 @@ def render(
             fname = "stdin"
             file_config = lnt.config
         else:
-            raw_sql, file_config, _ = lnt.load_raw_file_and_config(path, lnt.config)
+            try:
+                raw_sql, file_config, _ = lnt.load_raw_file_and_config(path, lnt.config)
+            except SQLFluffSkipFile as skip_file_err:
+                # The file is over the configured size limit: report that
+                # rather than letting the exception escape as a traceback.
+                click.echo(formatter.colorize(str(skip_file_err), Color.red), err=True)
+                sys.exit(EXIT_FAIL)
             fname = path
 
         # Get file specific config
